@@ -111,8 +111,9 @@ class C08(Check):
                    "after truncation at an array boundary the last listed step may hold fewer arrays than were written "
                    "(no reader can know); every array that is returned must be exact",
                    "formatted files are excluded from the crash part, as in the statement"]
-    EXAMPLES = {"quick": 40, "thorough": 1200}
+    EXAMPLES = {"quick": 40, "thorough": 800}
     MIN_EVALS = {"quick": 1500, "thorough": 9000}
+    TIME_CAP = {"quick": 240, "thorough": 1000}
     EXHAUSTIVE = True
     LEVEL_TEXT = ("History part: exhaustive enumeration of all write sequences up to length 4/5 over 5 report steps in both "
                   "formats plus Hypothesis-generated longer histories, judged after every write against a reference model "
